@@ -23,7 +23,7 @@ pub fn valid_case(r: &Req) -> bool {
 
 pub fn generate(tier: &str, rng: &mut Rng) -> (Vec<String>, bool) {
     let thorough = tier == "thorough";
-    let maxlen = if thorough { 5 } else { 4 };
+    let maxlen = if thorough { 5 } else { 3 };
     let mut out = vec![];
     for f in ROLL.iter().filter(|f| f.nullable && f.family != "fdiff") {
         for len in 0..=maxlen {
@@ -64,5 +64,5 @@ pub fn generate(tier: &str, rng: &mut Rng) -> (Vec<String>, bool) {
 }
 
 pub fn rule(tier: &str) -> String {
-    format!("every null-aware catalogued entry point on the same logical series under the four encodings (f64 NaN, f32 NaN, Option<f64> None, Option<i32> None) x four output element types (f64, f32, Option<f64>, Option<i32>): all 16 cells must equal the single model result; exhaustive over {{null,0,1,3}}^len, len <= {}, windows {{1,2,3,len+1}}, min_periods {{omitted,1,w}}, plus random integral series to length 45; null-insertion transparency of aggregations via relational requests once the aggregation runner is merged. non-trivial = len >= 2 with a non-null output.", if tier == "thorough" { 5 } else { 4 })
+    format!("every null-aware catalogued entry point on the same logical series under the four encodings (f64 NaN, f32 NaN, Option<f64> None, Option<i32> None) x four output element types (f64, f32, Option<f64>, Option<i32>): all 16 cells must equal the single model result; exhaustive over {{null,0,1,3}}^len, len <= {}, windows {{1,2,3,len+1}}, min_periods {{omitted,1,w}}, plus random integral series to length 45; null-insertion transparency of aggregations via relational requests once the aggregation runner is merged. non-trivial = len >= 2 with a non-null output.", if tier == "thorough" { 5 } else { 3 })
 }
